@@ -244,7 +244,7 @@ func (r *Runtime) builtinJSON_stringify(call FunctionCall) Value {
 			num = int64(i)
 			isNum = true
 		} else if f, ok := spaceValue.(valueFloat); ok {
-			num = int64(f)
+			num = f.ToInteger()
 			isNum = true
 		}
 		if isNum {
